@@ -444,7 +444,17 @@ class Interp:
             return
         if isinstance(st, ast.Global):
             fr.globals_declared |= set(st.names); return
-        if isinstance(st, (ast.Import, ast.ImportFrom, ast.Nonlocal)):
+        if isinstance(st, ast.Nonlocal):
+            fr.nonlocal_declared = getattr(fr, 'nonlocal_declared', set()) | set(st.names); return
+        if isinstance(st, (ast.Import, ast.ImportFrom)):
+            # an import inside a function binds the same object a module-level import would: registered with the module's import table (unless the name is already bound there)
+            for a_ in st.names:
+                if isinstance(st, ast.Import):
+                    key_, val_ = (a_.asname or a_.name.split('.')[0]), ('mod', a_.name if a_.asname else a_.name.split('.')[0])
+                else:
+                    key_, val_ = (a_.asname or a_.name), ('from', fr.mod._abs_module(st.level, st.module), a_.name)
+                if key_ not in fr.mod.imports and key_ not in fr.mod.defs:
+                    fr.mod.imports[key_] = val_
             return
         if isinstance(st, ast.FunctionDef):
             fr.vars[st.name] = FuncRef(fr.mod, st, closure=fr); return
@@ -534,6 +544,11 @@ class Interp:
             if t.id in fr.globals_declared:
                 self.module_state[(fr.mod.name, t.id)] = v
                 return
+            if t.id in getattr(fr, 'nonlocal_declared', ()) and fr.parent is not None:
+                owner = fr.parent.lookup(t.id)
+                if owner is not None:
+                    owner.vars[t.id] = v
+                    return
             cur = fr.vars.get(t.id)
             if isinstance(cur, Ref):
                 cur.frame.vars[cur.name] = v
@@ -1103,9 +1118,32 @@ class Interp:
     def e_Tuple(self, e, fr): return tuple(self._elts(e.elts, fr))
     def e_List(self, e, fr): return self._elts(e.elts, fr)
 
+    def e_Set(self, e, fr):
+        out = []
+        for v in self._elts(e.elts, fr):
+            c = concrete(v) if isinstance(v, (Node, int, Fraction)) else None
+            v = c if c is not None else v
+            if not any(v is w or (not isinstance(v, Node) and not isinstance(w, Node) and v == w) for w in out):
+                out.append(v)
+        try:
+            return set(out)
+        except TypeError:
+            return out            # unhashable members: kept as a duplicate-free list (membership tests and iteration behave alike)
+
+    def e_NamedExpr(self, e, fr):
+        v = self.eval(e.value, fr)
+        self.assign(e.target, v, fr, e)
+        return v
+
     def e_Dict(self, e, fr):
         d = {}
         for k, v in zip(e.keys, e.values):
+            if k is None:                       # {**other, ...}
+                other = self.eval(v, fr)
+                if not isinstance(other, dict):
+                    raise RaiseSignal(ast.copy_location(ast.Raise(exc=ast.Name(id='TypeError', ctx=ast.Load()), cause=None), e), f'TypeError: {type(other).__name__} object is not a mapping')
+                d.update(other)
+                continue
             kk = self.eval(k, fr)
             c = concrete(kk)
             if c is not None: kk = c
@@ -1399,7 +1437,7 @@ class Interp:
             return range(*vals)
         if nm == 'len':
             a = args[0]
-            if isinstance(a, (tuple, list, dict, str)): return len(a)
+            if isinstance(a, (tuple, list, dict, str, set, frozenset, range)): return len(a)
             if isinstance(a, Arr) and a.shape: return a.shape[0]
             raise AnalysisError('len of symbolic object')
         if nm in ('float', 'complex128', 'float64', 'asarray', 'array', 'ascontiguousarray', 'copy', '__cast__'):
